@@ -203,6 +203,15 @@ func runC04(r resIface, c *c04case, rng *prng.R, nRestarts int) {
 		patience += 6 * time.Second // the tool waits a second before it reconnects
 	}
 	complete := waitUntil(patience, func() bool { return count() >= len(wantData) })
+	if !complete {
+		// delivery in bounded time is C03's property; here a slow (loaded) machine only gets more patience
+		complete = waitUntil(90*time.Second, func() bool { return count() >= len(wantData) })
+		r.Count("histories_that_needed_extra_patience", 1)
+	}
+	if c.SourceDrop > 0 {
+		// a drop near the end of the stream may come after the last forwarded command: the tool re-attaches a second later
+		waitUntil(10*time.Second, func() bool { _, ps := e.Src.Snapshot(); return len(ps) >= 2 })
+	}
 	time.Sleep(50 * time.Millisecond)
 	sig := func(o string) string { return fmt.Sprintf("C04|outcome=%s|config=%s", o, cfgClass(&c.Cfg)) }
 	if !complete {
@@ -316,10 +325,15 @@ func runC04(r resIface, c *c04case, rng *prng.R, nRestarts int) {
 			r.Inconcl("restart: " + err.Error())
 			return
 		}
-		waitUntil(8*time.Second, func() bool { _, ps := e2.Src.Snapshot(); return len(ps) > 0 })
-		ok := waitUntil(8*time.Second, func() bool {
+		waitUntil(60*time.Second, func() bool { _, ps := e2.Src.Snapshot(); return len(ps) > 0 })
+		reached := func() bool {
 			return miniredis.DiffKeyspaces(stripCheckpoints(srv.Snapshot()), finalRef, false) == ""
-		})
+		}
+		ok := waitUntil(8*time.Second, reached)
+		if !ok {
+			ok = waitUntil(60*time.Second, reached) // a loaded machine gets more patience before "lost" is concluded
+			r.Count("restarts_that_needed_extra_patience", 1)
+		}
 		if ok {
 			time.Sleep(30 * time.Millisecond) // a command applied twice would show up now
 			ok = miniredis.DiffKeyspaces(stripCheckpoints(srv.Snapshot()), finalRef, false) == ""
@@ -509,8 +523,22 @@ func c04(c *wk.Ctx) {
 	}
 	ncfg := c.N(8, 16)
 	per := c.N(2, 36)
-	wk.Parallel(ncfg, 16, func(i int) {
-		wk.RunBatch(c, "c04hist", i*100000, i*100000+per, c04extra{CfgIdx: i}, 60*time.Minute, onDeath)
+	// short-lived children (<= 4 histories each): every history leaves its fakes, byte logs and the syncers of
+	// its restarts behind, and the race build multiplies that
+	type job struct{ cfg, from, to int }
+	var jobs []job
+	for i := 0; i < ncfg; i++ {
+		for f := 0; f < per; f += 4 {
+			t := f + 4
+			if t > per {
+				t = per
+			}
+			jobs = append(jobs, job{i, f, t})
+		}
+	}
+	wk.Parallel(len(jobs), 12, func(k int) {
+		j := jobs[k]
+		wk.RunBatch(c, "c04hist", j.cfg*100000+j.from, j.cfg*100000+j.to, c04extra{CfgIdx: j.cfg}, 60*time.Minute, onDeath)
 	})
 	r.Floor("histories", 8)
 	r.Floor("histories_with_a_source_reconnect", 4)
